@@ -13,7 +13,7 @@ QCls == {"generic", "mysql"}
 Paths == {"ctor", "derived"}
 Variants == [name : Names, schema : Schemas, alias : Aliases, temporal : Temporal, qcls : QCls, path : Paths]
 
-Srcs == {"t", "u", "v", "e1", "e2"}      \* e1, e2: two aliases of ONE table (self-join)
+Srcs == {"t", "u", "v", "e1", "e2", "s1i", "s2i"}      \* e1, e2: two aliases of ONE table (self-join); s1i, s2i: ONE table name in two schemas
 Cols == {"a", "b"}
 Fld(s, c) == [k |-> "fld", src |-> s, n |-> c]
 Flds == {Fld(s, c) : s \in Srcs, c \in Cols}
